@@ -14,6 +14,7 @@ mod rnd;
 mod rt;
 mod proxy;
 mod scen_c08;
+mod scen_c14;
 mod scen_c15;
 mod scen_c16;
 mod scen_link;
@@ -38,6 +39,7 @@ fn generate(prop: &str, seed: u64, thorough: bool) -> Option<Plan> {
         "C11model" => Some(scen_pw::gen_c11_model(seed, thorough)),
         "C11" => Some(scen_udp::gen_c11_system(seed, thorough)),
         "C13" => Some(scen_local::gen_c13(seed, thorough)),
+        "C14" => Some(scen_c14::gen_c14(seed, thorough)),
         "C15" => Some(scen_c15::gen_c15(seed, thorough)),
         "C16" => Some(scen_c16::gen_c16(seed, thorough)),
         _ => None,
@@ -55,6 +57,7 @@ fn execute(plan: &Plan) -> Outcome {
         "udp-system" => scen_udp::execute_udp(plan),
         "pw-model" => scen_pw::execute_pw(plan),
         "config-names" => scen_c16::execute_c16(plan),
+        "addresses" => scen_c14::execute_c14(plan),
         other => {
             eprintln!("unknown scenario {other}");
             std::process::exit(2);
